@@ -733,12 +733,29 @@ where
 	let keychain = w.keychain(keychain_mask)?;
 
 	// Add our contribution to the offset
-	if context_res.is_ok() {
-		// Self sending: don't correct for inputs and outputs
-		// here, as we will do it during finalization.
+	if let Ok(ref c) = context_res {
+		// Self sending: the invoice was issued by this wallet itself. It must really be
+		// that invoice (anyone who was sent it knows its id)
+		let own_excess =
+			crate::grin_util::secp::key::PublicKey::from_secret_key(keychain.secp(), &c.sec_key)?;
+		if !slate
+			.participant_data
+			.iter()
+			.any(|p| p.public_blind_excess == own_excess)
+		{
+			return Err(Error::TransactionAlreadyReceived(ret_slate.id.to_string()));
+		}
+		// The invoice side's outputs are part of this transaction too and end up in the
+		// same stored context: account for every input and output here and leave only the
+		// invoice side's excess key for finalization. (Adjusting by this side's excess key
+		// alone would put that key, negated, into the offset of the slate handed back.)
 		let mut tmp_context = context.clone();
-		tmp_context.input_ids.clear();
-		tmp_context.output_ids.clear();
+		for o in c.output_ids.iter() {
+			tmp_context.output_ids.push(o.clone());
+		}
+		for i in c.input_ids.iter() {
+			tmp_context.input_ids.push(i.clone());
+		}
 		ret_slate.adjust_offset(&keychain, &tmp_context)?;
 	} else {
 		ret_slate.adjust_offset(&keychain, &context)?;
